@@ -719,6 +719,8 @@ def d4(cx: Cx, ob: Ob) -> None:
             # construction whose handler catches them (ValueError and wider) and raises something else hides 'which
             # records clash' behind another error
             for tr in ast.walk(fn.node):
+                if ev.kind == "expr" and ev.a == c:
+                    break  # a construction whose result is thrown away is a PROBE ("would these records be accepted?")
                 if not isinstance(tr, ast.Try) or not any(getattr(n_, "lineno", None) == ev.line for b_ in tr.body for n_ in ast.walk(b_)):
                     continue
                 for h in tr.handlers:
